@@ -1212,37 +1212,114 @@ def registry_phase(rep, r, facts, n_seq):
     return dis, oracle_fail
 
 
+PUSH_SCRIPT = "return redis.call('RPUSH', KEYS[1], ARGV[1])"
+RENAME_SCRIPT = "return redis.call('RENAME', KEYS[1], KEYS[2])"
+
+# how an element reaches the key a client is blocked on: name -> (commands of the other connection, given key, source key, sha)
+ARRIVALS = {
+    "LPUSH": lambda k, src, sha: [["LPUSH", k, "x"]],
+    "RPUSH": lambda k, src, sha: [["RPUSH", k, "x"]],
+    "EXEC[RPUSH]": lambda k, src, sha: [["MULTI"], ["RPUSH", k, "x"], ["EXEC"]],
+    "EVAL": lambda k, src, sha: [["EVAL", PUSH_SCRIPT, "1", k, "x"]],
+    "EVALSHA": lambda k, src, sha: [["EVALSHA", sha["push"], "1", k, "x"]],
+    "EXEC[EVAL]": lambda k, src, sha: [["MULTI"], ["EVAL", PUSH_SCRIPT, "1", k, "x"], ["EXEC"]],
+    "EXEC[EVALSHA]": lambda k, src, sha: [["MULTI"], ["EVALSHA", sha["push"], "1", k, "x"], ["EXEC"]],
+    "RENAME": lambda k, src, sha: [["RPUSH", src, "x"], ["RENAME", src, k]],
+    "RENAMENX": lambda k, src, sha: [["RPUSH", src, "x"], ["RENAMENX", src, k]],
+    "EXEC[RENAME]": lambda k, src, sha: [["RPUSH", src, "x"], ["MULTI"], ["RENAME", src, k], ["EXEC"]],
+    "EVAL[RENAME]": lambda k, src, sha: [["RPUSH", src, "x"], ["EVAL", RENAME_SCRIPT, "2", src, k]],
+    "EVALSHA[RENAME]": lambda k, src, sha: [["RPUSH", src, "x"], ["EVALSHA", sha["rename"], "2", src, k]],
+}
+
+
 def probes(sess):
-    """a client blocked on k; k then receives an element (a) from a script, (b) by RENAME: is the client served?
-    -> {match: None | detail of the stranded client}"""
-    out = {}
-    sess.hist_no += 1
-    for name in ("push-by-script", "rename-onto-waited-key"):
-        k = b"p%d:%s" % (sess.hist_no, name.encode())
-        a = sess.srv.client()
-        try:
-            cid = a.cmd("CLIENT", "ID", timeout=5)[1]
-            a.send("BLPOP", k, "0")
-            sess.wait_loops(3)
-            if name == "push-by-script":
-                cmds = [["EVAL", "return redis.call('RPUSH', KEYS[1], 'x')", "1", k]]
-            else:
-                cmds = [["RPUSH", k + b":src", "x"], ["RENAME", k + b":src", k]]
-            replies = [sess.ctl.cmd(*c, timeout=5) for c in cmds]
-            sess.wait_loops(5)
-            f = Flat(a)
-            got = f.read(0.3)
-            reg, wq = sess.impl_blocked([k])
-            lst = sess.impl_list(k)
-            if got is None and lst:
-                out[name] = {"why": "conn %d blocked on %r is not served although the key holds %r after %s (registry %s, wake queue %d)"
-                                    % (cid, k, lst, " ; ".join(c[0] for c in cmds), show_reg(reg), wq),
-                             "commands": [[x.decode() if isinstance(x, bytes) else x for x in c] for c in [["BLPOP", k, "0"]] + cmds],
-                             "replies": [show_plain(r) for r in replies]}
-            else:
-                out[name] = None
-        finally:
-            a.close()
+    """A client blocked on k; an element reaches k — by every way an element can get there (`ARRIVALS`), for BLPOP and
+    BRPOP, for a single-key and a multi-key wait (k second), in database 0 and 15; and, the other way round, an element
+    pushed by a script to the same key NAME in ANOTHER database, which must wake nobody.  Judged by the oracle alone
+    (scripts and RENAME are outside the Lean machine): the waiter must be served, nothing may be lost.
+    -> {finding match or probe name: None | detail of the first failure}"""
+    out = {"push-by-script": None, "rename-onto-waited-key": None, "arrival": None, "other-database-push": None}
+    sess.select(0)
+    sha = {}
+    for nm, src in (("push", PUSH_SCRIPT), ("rename", RENAME_SCRIPT)):
+        r = sess.ctl.cmd("SCRIPT", "LOAD", src, timeout=5)
+        if r[0] != "b":
+            raise InternalError("SCRIPT LOAD refused: %r" % (r,))
+        sha[nm] = r[1]
+    n = 0
+    for way, mk_cmds in ARRIVALS.items():
+        for bop in ("BLPOP", "BRPOP"):
+            for multi in (False, True):
+                for db in ((0, 15) if way in ("EVAL", "EVALSHA", "RENAME", "LPUSH") else (0,)):
+                    n += 1
+                    sess.hist_no += 1
+                    k = b"p%d:k" % sess.hist_no
+                    other = b"p%d:o" % sess.hist_no
+                    src = b"p%d:src" % sess.hist_no
+                    a, b = sess.srv.client(), sess.srv.client()
+                    try:
+                        if db:
+                            a.cmd("SELECT", str(db), timeout=5)
+                            b.cmd("SELECT", str(db), timeout=5)
+                        cid = a.cmd("CLIENT", "ID", timeout=5)[1]
+                        a.send(*([bop] + ([other, k] if multi else [k]) + ["0"]))
+                        sess.wait_loops(3)
+                        cmds = mk_cmds(k, src, sha)
+                        replies = [b.cmd(*c, timeout=5) for c in cmds]
+                        sess.wait_loops(5)
+                        got = Flat(a).read(0.3)
+                        reg, wq = sess.impl_blocked([k, other], db)
+                        lst = sess.impl_list(k, db)
+                        sess.rep.count("probe.arrival.%s.%s.%s.db%d" % (way, bop, "multi-key" if multi else "single-key", db))
+                        bad = None
+                        if got is None and lst:
+                            bad = "conn %d blocked in %s %s(db %d) is not served although %r holds %r after %s (registry %s, wake queue %d)" % (
+                                cid, bop, "on [other, k] " if multi else "", db, k, lst, " ; ".join(c[0] for c in cmds), show_reg(reg), wq)
+                        elif got is None:
+                            bad = "the element sent by %s reached neither the client blocked on %r nor the list (replies %r)" % (way, k, replies)
+                        elif got != "p=%s=%s" % (hx(k), hx(b"x")) or lst or reg:
+                            bad = "after %s the waiter got %s, the list holds %r, the registry %s" % (way, got, lst, show_reg(reg))
+                        if bad:
+                            det = {"why": bad, "way": way, "commands": [[x.decode() if isinstance(x, bytes) else x for x in c]
+                                                                        for c in [[bop] + ([other, k] if multi else [k]) + ["0"]] + cmds],
+                                   "replies": [show_plain(r) for r in replies], "database": db}
+                            slot = "push-by-script" if "EVAL" in way and "RENAME" not in way else ("rename-onto-waited-key" if "RENAME" in way else "arrival")
+                            if out[slot] is None:
+                                out[slot] = det
+                    finally:
+                        a.close()
+                        b.close()
+    # the other way round: the same key name in another database must wake nobody and lose nothing
+    for way in ("EVAL", "EVALSHA", "RPUSH"):
+        for wdb, pdb in ((0, 15), (15, 0), (14, 15)):
+            sess.hist_no += 1
+            k = b"p%d:k" % sess.hist_no
+            a, b = sess.srv.client(), sess.srv.client()
+            try:
+                if wdb:
+                    a.cmd("SELECT", str(wdb), timeout=5)
+                if pdb:
+                    b.cmd("SELECT", str(pdb), timeout=5)
+                a.send("BLPOP", k, "0")
+                sess.wait_loops(3)
+                cmds = ARRIVALS[way](k, None, sha)
+                replies = [b.cmd(*c, timeout=5) for c in cmds]
+                sess.wait_loops(5)
+                got = Flat(a).read(0.1)
+                lst = sess.impl_list(k, pdb)
+                reg, wq = sess.impl_blocked([k], wdb)
+                sess.rep.count("probe.other-database.%s.waiter-db%d.push-db%d" % (way, wdb, pdb))
+                if got is not None or lst != [b"x"] or not reg.get(k):
+                    if out["other-database-push"] is None:
+                        out["other-database-push"] = {"why": "an element pushed by %s to %r in database %d: the client blocked on that name in database %d got %s, the list of "
+                                                             "database %d holds %r, the registry of database %d is %s (want: nothing, [x], the waiter)" % (
+                                                                 way, k, pdb, wdb, got, pdb, lst, wdb, show_reg(reg)),
+                                                      "commands": ["waiter (db %d): BLPOP k 0" % wdb] + [[x.decode() if isinstance(x, bytes) else x for x in c] for c in cmds],
+                                                      "replies": [show_plain(r) for r in replies]}
+            finally:
+                a.close()
+                b.close()
+    sess.select(0)
     out["wake-batch-overflow"] = probe_batch_overflow(sess)
     out["exec-not-atomic"] = probe_exec_atomic(sess)
     return out
